@@ -129,7 +129,7 @@ theorem getAnyLoop_short (tbl : PropTable) (oldOf : UInt8 → List PropOcc → B
     have hc : n0 - b.rest.length < plen := by omega
     simp only [hc, if_true]
     by_cases hok : (b.get decU8 0).1.st = .ok
-    · obtain ⟨hne, v, w, hdec, hrest, _⟩ := get_ok_inv b decU8 0 hok hb
+    · obtain ⟨hne, v, w, hdec, _, hrest, _⟩ := get_ok_inv b decU8 0 hok hb
       have hw := decU8_ok_w _ _ _ hdec
       have hlen : (b.get decU8 0).1.rest.length + 1 = b.rest.length := by
         rw [hrest, hw, List.length_drop]
